@@ -308,11 +308,12 @@ Proof.
   - cbn [descs] in He. destruct He as [<-|He]; [exact (proj2 HL)|]. eapply IH; [exact (proj2 HL) | exact He].
   - apply lay_Sub_inv in HL. destruct HL as [_ HLL]. rewrite descs_Sub in He. apply in_app_or in He.
     destruct He as [He|He]; [eapply lay_list_heads in He; [exact He | exact HLL]|].
-    revert He HLL. generalize p at 2 3. generalize (p + length cs)%nat.
-    induction IH as [|c r Hc _ IHr]; intros q i0 He HLL; [contradiction|].
-    destruct HLL as [HLc HLr]. cbn [tails] in He. apply in_app_or in He. destruct He as [He|He].
-    + eapply Hc; eassumption.
-    + eapply IHr; eassumption.
+    assert (G : forall i0 q, lay_list (lay T) cs i0 q -> In e (tails cs q) -> lay T (snd e) (eidx e) (eblk e)).
+    { clear He HLL. induction IH as [|c r Hc _ IHr]; intros i0 q HLL He; [contradiction|].
+      destruct HLL as [HLc HLr]. cbn [tails] in He. apply in_app_or in He. destruct He as [He|He].
+      - eapply Hc; eassumption.
+      - eapply IHr; eassumption. }
+    eapply G; eassumption.
 Qed.
 
 Lemma wf_descs : forall t p, wf_tree t = true -> forall e, In e (descs t p) -> wf_tree (snd e) = true.
